@@ -153,7 +153,9 @@ func (w *world) close() {
 	os.RemoveAll(w.dir)
 }
 
-var hostileStrings = []string{"", "plain", `quote " inside`, `back\slash`, "tab\tnewline\ncr\r", "<script>&amp;</script>", "line sep ", "non-BMP 😀 𒐖", "nul\x00byte", "ünïcödé", `{"json":true}`, "\u007f\u0080ÿ", "%41+%2B", "é" + strings.Repeat("x", 2046) + "é"}
+var hostileStrings = []string{"", "plain", `quote " inside`, `back\slash`, "tab\tnewline\ncr\r", "<script>&amp;</script>", "line sep ", "non-BMP 😀 𒐖", "nul\x00byte", "ünïcödé", `{"json":true}`, "\u007f\u0080ÿ", "%41+%2B", "é" + strings.Repeat("x", 2046) + "é",
+	// pieces of the protocols that carry the value
+	"Proxy (HTTP/1.0 only)", "HTTP/1.0 200 OK", "HTTP/1.1 200 OK\r\nContent-Length: 0\r\n\r\n", "EVENT/1.0", "Content-Length: 5", "Transfer-Encoding: chunked", "0\r\n\r\n", `"}]}`, `{"characteristics":[]}`, "\r\n\r\n"}
 
 // genValue draws a value of the characteristic's format inside its bounds, as the Go type hc stores.
 func genValue(t *rapid.T, ch *characteristic.Characteristic) interface{} {
@@ -406,8 +408,25 @@ func wireValue(t *rapid.T, v interface{}) string {
 		}
 		return strconv.FormatBool(x)
 	case int:
+		// JSON has one number type: 100, 100.0, 1e2 and 1.0E+02 are the same value
+		switch rapid.IntRange(0, 5).Draw(t, "intSpelling") {
+		case 2:
+			return strconv.Itoa(x) + ".0"
+		case 3:
+			return strconv.FormatFloat(float64(x), 'e', -1, 64)
+		case 4:
+			return strings.ToUpper(strconv.FormatFloat(float64(x), 'e', -1, 64))
+		case 5:
+			return strconv.Itoa(x) + ".000e0"
+		}
 		return strconv.Itoa(x)
 	case float64:
+		switch rapid.IntRange(0, 3).Draw(t, "floatSpelling") {
+		case 2:
+			return strconv.FormatFloat(x, 'e', -1, 64)
+		case 3:
+			return strings.ToUpper(strconv.FormatFloat(x, 'e', -1, 64))
+		}
 		return strconv.FormatFloat(x, 'g', -1, 64)
 	case string:
 		b, _ := json.Marshal(x)
@@ -485,7 +504,7 @@ func TestC09Prop(t *testing.T) {
 		nActions := rapid.IntRange(3, 15).Draw(t, "nactions")
 		nontrivial := false
 		for a := 0; a < nActions; a++ {
-			kind := rapid.SampledFrom([]string{"set-get", "set-get", "set-get-many", "set-accessories", "put", "put"}).Draw(t, "action")
+			kind := rapid.SampledFrom([]string{"set-get", "set-get", "set-get-many", "set-accessories", "put", "put", "put-missing"}).Draw(t, "action")
 			switch kind {
 			case "set-get", "set-get-many", "set-accessories":
 				nset := 1
@@ -527,8 +546,36 @@ func TestC09Prop(t *testing.T) {
 				for i := 0; i < nids; i++ {
 					switch rapid.IntRange(0, 9).Draw(t, "idkind") {
 					case 0:
-						refs = append(refs, idRef{aid: uint64(rapid.IntRange(1, 200).Draw(t, "maid")), iid: uint64(rapid.IntRange(900, 999).Draw(t, "miid"))})
+						// ids that do not exist, of every kind: unknown iid of a known accessory, known iid under an
+						// unknown accessory id, iid of one accessory under the id of another, both unknown
+						exists := map[[2]uint64]bool{}
+						maxAid := uint64(1)
+						for _, it := range w.items {
+							exists[[2]uint64{it.aid, it.ch.ID}] = true
+							if it.aid > maxAid {
+								maxAid = it.aid
+							}
+						}
+						a := w.items[rapid.IntRange(0, len(w.items)-1).Draw(t, "mitemA")]
+						b := w.items[rapid.IntRange(0, len(w.items)-1).Draw(t, "mitemB")]
+						ref := idRef{aid: uint64(rapid.IntRange(1, 200).Draw(t, "maid")), iid: uint64(rapid.IntRange(900, 999).Draw(t, "miid"))}
+						mk := "missing-id"
+						switch rapid.IntRange(0, 3).Draw(t, "mkind") {
+						case 0:
+							ref = idRef{aid: a.aid, iid: uint64(rapid.IntRange(900, 999).Draw(t, "miid2"))}
+						case 1:
+							ref = idRef{aid: maxAid + 1 + uint64(rapid.IntRange(0, 5).Draw(t, "beyond")), iid: b.ch.ID}
+							mk = "missing-id:unknown-aid+known-iid"
+						case 2:
+							ref = idRef{aid: a.aid, iid: b.ch.ID}
+							mk = "missing-id:iid-of-other-accessory"
+						}
+						if exists[[2]uint64{ref.aid, ref.iid}] {
+							ref, mk = idRef{aid: a.aid, iid: 998}, "missing-id"
+						}
+						refs = append(refs, ref)
 						flags["missing-id"] = true
+						flags[mk] = true
 						nontrivial = true
 					case 1:
 						if len(refs) > 0 {
@@ -554,6 +601,49 @@ func TestC09Prop(t *testing.T) {
 					flags["multi-frame-response"] = true
 					nontrivial = true
 				}
+			case "put-missing":
+				// a write to an id that does not exist (unknown accessory id with an iid that exists elsewhere, iid of
+				// another accessory) is refused and reaches no characteristic at all
+				exists := map[[2]uint64]bool{}
+				maxAid := uint64(1)
+				calls := 0
+				for _, it := range w.items {
+					exists[[2]uint64{it.aid, it.ch.ID}] = true
+					if it.aid > maxAid {
+						maxAid = it.aid
+					}
+					calls += len(it.remote)
+				}
+				a := w.items[rapid.IntRange(0, len(w.items)-1).Draw(t, "mitemA")]
+				b := w.items[rapid.IntRange(0, len(w.items)-1).Draw(t, "mitemB")]
+				ref := [2]uint64{maxAid + 1 + uint64(rapid.IntRange(0, 5).Draw(t, "beyond")), b.ch.ID}
+				if rapid.Bool().Draw(t, "other-accessory") {
+					ref = [2]uint64{a.aid, b.ch.ID}
+				}
+				if exists[ref] || !has(b.ch.Perms, "pw") {
+					continue
+				}
+				v := genValue(t, b.ch)
+				body := fmt.Sprintf(`{"characteristics":[{"aid":%d,"iid":%d,"value":%s}]}`, ref[0], ref[1], wireValue(t, v))
+				hist = append(hist, fmt.Sprintf("PUT to the non-existing id %d.%d", ref[0], ref[1]))
+				resp, derr := w.cl.Do("PUT", "/characteristics", refctl.ContentJSON, []byte(body))
+				if derr != nil {
+					t.Fatalf("PUT to the non-existing id %d.%d: %v\nhistory: %v", ref[0], ref[1], derr, hist)
+				}
+				// (hc answers such a write with 204 and ignores it; the property asks for a status per id only for
+				// reads, so the answer itself is not judged here - only that the write went nowhere)
+				_ = resp
+				after := 0
+				for _, it := range w.items {
+					after += len(it.remote)
+					if has(it.ch.Perms, "pr") && !sameValue(it.ch.Value, it.want) {
+						t.Fatalf("PUT to the non-existing id %d.%d changed %d.%d (%s) from %#v to %#v\nhistory: %v", ref[0], ref[1], it.aid, it.ch.ID, it.ctor, it.want, it.ch.Value, hist)
+					}
+				}
+				if after != calls {
+					t.Fatalf("PUT to the non-existing id %d.%d ran %d remote-update callbacks\nhistory: %v", ref[0], ref[1], after-calls, hist)
+				}
+				flags["put-missing-id"] = true
 			case "put":
 				var cands []*item
 				for _, it := range w.items {
